@@ -10,7 +10,7 @@ Everything here is a total function over `Nat`/`Int`/`List`; no Mathlib.
   (`mir-gen-x86_64.c:703-836`): same counters, same tests, stack arguments addressed from the frame
   pointer with displacement `mem_size + 8 + start_sp_from_bp_offset`, `mem_size` rounded up to 16
   before a `long double` (since fix 6f58eeff).
-* `vaStartStep` / `vaStartGen` — model of the `MIR_VA_START` expansion (`mir-gen-x86_64.c:862-879`).
+* `vaStartGen` — model of the `MIR_VA_START` expansion (`mir-gen-x86_64.c:862-872`).
 * `vaArgStep`, `vaBlockArg` — models of `va_arg_builtin` / `va_block_arg_builtin`
   (`mir-x86_64.c:47-113`); `gccVaArg` — what `va_arg (va, T)` compiled by the C compiler does in
   `interp` (`mir-interp.c:2002-2037`); `shimStep` / `shimPlace` — the interpreter shim's view.
@@ -177,20 +177,6 @@ def MPiece.toPiece : MPiece → Piece
 
 /-! ## `va_start` expansion of generated code -/
 
-structure VaSt where
-  gp : Nat
-  fp : Nat
-  mem : Nat
-  deriving DecidableEq, Repr
-
-def vaStartStep (s : VaSt) : PTy → VaSt
-  | .flt | .dbl => { s with fp := s.fp + 16, mem := if s.gp ≥ 176 then s.mem + 8 else s.mem }
-  | .ld => { s with mem := (s.mem + 15) / 16 * 16 + 16 }
-  | .blk _ sz => { s with mem := s.mem + sz }
-  | .int | .rblk => { s with gp := s.gp + 8, mem := if s.gp + 8 ≥ 48 then s.mem + 8 else s.mem }
-
-def vaStartGen (ps : List PTy) : VaSt := ps.foldl vaStartStep ⟨0, 48, 0⟩
-
 /-- a `va_list` as far as argument fetching is concerned (declared before its first use below); `oaa` = overflow_arg_area as byte offset from
 the first stack-argument word.  (`8 /*ret*/ + mem_offset + start_sp_from_bp_offset` from `rbp` is
 `mem_offset` bytes above the first stack argument.) -/
@@ -200,16 +186,16 @@ structure VaList where
   oaa : Nat
   deriving DecidableEq, Repr
 
-def VaSt.toVaList (s : VaSt) : VaList := ⟨s.gp, s.fp, s.mem⟩
-
 /-- what the psABI prescribes after the named parameters `ps` -/
 def sysvVaStart (ps : List PTy) : VaList :=
   let s := (sysvWalk .init ps).2
   ⟨8 * s.ni, 48 + 16 * s.nf, s.off⟩
 
-/-- candidate repair `fixes/C06-va-start.patch`: take the counters the argument loop of
-`target_machinize` has left (`int_arg_num`, `fp_arg_num`, `mem_size`) instead of re-deriving them -/
-def vaStartFixed (ps : List PTy) : VaList :=
+/-- the `MIR_VA_START` expansion (since fix de2f5d8a): the three fields come from the counters the
+argument loop of `target_machinize` has left —
+`gp_offset = min (int_arg_num, 6) * 8`, `fp_offset = 48 + min (fp_arg_num, 8) * 16`,
+`mem_offset = mem_size` -/
+def vaStartGen (ps : List PTy) : VaList :=
   let m := (machWalk .init ps).2
   ⟨min m.intArgNum 6 * 8, 48 + min m.fpArgNum 8 * 16, m.memSize⟩
 
@@ -321,25 +307,9 @@ def isIntClass : PTy → Bool | .int | .rblk => true | _ => false
 def isBlk : PTy → Bool | .blk _ _ => true | _ => false
 def isMixedBlk : PTy → Bool | .blk 3 _ | .blk 4 _ => true | _ => false
 
-def intCount : List PTy → Nat
-  | [] => 0
-  | p :: ps => (if isIntClass p then 1 else 0) + intCount ps
-def fpCount : List PTy → Nat
-  | [] => 0
-  | p :: ps => (if isFp p then 1 else 0) + fpCount ps
-/-- block parameters the `va_start` expansion accounts for correctly: memory class, size a multiple of 8 -/
-def blkPlain : List PTy → Bool
-  | [] => true
-  | .blk k sz :: ps => k == 0 && sz % 8 == 0 && blkPlain ps
-  | _ :: ps => blkPlain ps
 def allWf : List PTy → Bool
   | [] => true
   | p :: ps => p.wf && allWf ps
-
-/-- named parameter lists for which the `va_start` expansion is right: fewer than six integer-class
-and at most eight SSE-class named parameters, only plain memory blocks -/
-def vaStartOK (ps : List PTy) : Bool :=
-  decide (intCount ps < 6) && decide (fpCount ps ≤ 8) && blkPlain ps
 
 /-! ## Frame (`target_make_prolog_epilog`) -/
 
